@@ -35,9 +35,13 @@ Inductive strategy : Type := LargestFirst | RandomImprove | LargestFirstMultiAss
 Inductive selector : Type := ByCoin | ByAsset (p n : bytes).
 
 Record variant : Type := mkVariant {
-  v_swap_fixed : bool;     (* phase 2 releases the replaced index and retires the new one (since fix row 10) *)
-  v_assoc_once : bool;     (* final loop takes each associated entry once (since fix row 23) *)
-  v_prestep_fee : bool     (* the pre-step adds its input's fee to the target *)
+  v_swap_fixed : bool;     (* phase 2 releases the replaced index and retires the new one (since /repo b244700) *)
+  v_assoc_once : bool;     (* final loop takes each associated entry once (since 2a9f309) *)
+  v_prestep_fee : bool;    (* the pre-step adds its input's fee to the target (since d550071) *)
+  v_exact_improve : bool;  (* phase 2 computes 2*min and 3*min in 128 bits (since 844a848; before: u64, overflow panics
+                              in the profile with overflow checks and wraps in release) *)
+  v_skip_present : bool;   (* offered UTxOs already in the builder or offered twice are left out (since 0efa6ad) *)
+  v_asset_guard : bool     (* success only if every asset of the target is covered (since ab61362) *)
 }.
 
 Inductive outcome (A : Type) : Type :=
@@ -79,6 +83,14 @@ Fixpoint imap_insert (u : utxo) (m : imap) : imap :=
 
 Definition imap_of_list (l : list utxo) : imap := fold_left (fun m u => imap_insert u m) l [].
 Definition imap_ids (m : imap) : list N := map u_id m.
+
+(* inputs.0.iter().filter(|utxo| !self.inputs.has_input(&utxo.input) && offered_outpoints.insert(&utxo.input)) *)
+Definition id_mem (x : N) (l : list N) : bool := existsb (N.eqb x) l.
+Fixpoint filter_offered (seen : list N) (l : list utxo) : list utxo :=
+  match l with
+  | [] => []
+  | u :: r => if id_mem (u_id u) seen then filter_offered seen r else u :: filter_offered (u_id u :: seen) r
+  end.
 
 (* try_fold(acc, checked_add) *)
 Fixpoint sum_values (acc : value) (l : list value) : result value :=
@@ -349,7 +361,7 @@ Section Model.
             let cur := by_or_zero sel (u_val ui) in
             let new := by_or_zero sel (u_val uj) in
             let mn := by_or_zero sel (o_val o) in
-            if 3 * mn <? two64 then                      (* 2 * min, 3 * min in u64: overflow panics (debug) *)
+            if v_exact_improve v || (3 * mn <? two64) then   (* before 844a848: 2 * min, 3 * min in u64 (overflow panics) *)
               let ideal := 2 * mn in
               let mx := 3 * mn in
               if (absdiff ideal new <? absdiff ideal cur) && (new <? mx) then
@@ -516,14 +528,52 @@ Section Model.
         obind st3 x3 (fun '(aset3, cs3) => phase3 (S (length aset3)) avail aset3 cs3 st3))
     end.
 
+  (* the offered UTxOs that can still be spent; the positions recorded in st_trace refer to this list *)
+  Definition effective_offered (offered : list utxo) (sc : scenario) : list utxo :=
+    if v_skip_present v then filter_offered (imap_ids (imap_of_list (sc_pre sc))) offered else offered.
+
+  (* every asset of the target has to be covered by input_total *)
+  Definition asset_guard (st : sel_state) : bool :=
+    match multiasset_of (st_out st) with
+    | None => true
+    | Some m => forallb (fun e => match e with (p, n, q) => q <=? qty (st_in st) p n end) (ma_entries m)
+    end.
+
   Definition add_inputs_from (strat : strategy) (cs : list N) (offered : list utxo) (sc : scenario)
     : sel_state * outcome unit :=
     let '(st0, x0) := initial_state sc in
     obind st0 x0 (fun _ =>
-    let '(avail, (st1, x1)) := prestep offered st0 in
-    obind st1 x1 (fun _ => run_strategy strat cs avail sc st1)).
+    let '(avail, (st1, x1)) := prestep (effective_offered offered sc) st0 in
+    obind st1 x1 (fun _ =>
+    let '(st2, x2) := run_strategy strat cs avail sc st1 in
+    obind st2 x2 (fun _ =>
+    if v_asset_guard v && negb (asset_guard st2) then (st2, Insufficient) else (st2, Done tt)))).
 End Model.
 
 (* the code before the repairs of this property, and the code as it is now *)
-Definition legacy : variant := mkVariant false false false.
-Definition current : variant := mkVariant true true true.
+Definition legacy : variant := mkVariant false false false false false false.
+Definition current : variant := mkVariant true true true true true true.
+
+(* fee_request (TxBuilderFee) and the two public fee functions in terms of the builder's raw estimate
+   [raw field m] = private min_fee(tx_builder) of the builder holding the inputs m whose fee field holds [field]
+   (tx_builder.rs: set_final_fee, TxBuilderFee::get_new_fee, TransactionBuilder::min_fee, fee_for_input) *)
+Inductive fee_request : Type := Unspecified | NotLess (f : N) | Exactly (f : N).
+Definition final_fee (req : fee_request) (x : N) : N :=
+  match req with Exactly e => e | NotLess n => if n <=? x then x else n | Unspecified => x end.
+Definition get_new_fee (req : fee_request) (x : N) : N :=
+  match req with Exactly e => e | NotLess n => if x <? n then n else x | Unspecified => x end.
+
+Section FeeModel.
+  Variable raw : N -> imap -> result N.
+  Variable req : fee_request.
+  (* TransactionBuilder::min_fee: placeholder 2^32 *)
+  Definition min_fee_of (m : imap) : result N :=
+    let* r := raw (final_fee req two32) m in Ok (get_new_fee req r).
+  (* fee_for_input with fee placeholder [ph]: 2^32 since /repo d980bbe, 0 before *)
+  Definition fee_for_input_of (ph : N) (m : imap) (u : utxo) : result N :=
+    let* a := raw (final_fee req ph) m in
+    if u_ok u then
+      let* b := raw (final_fee req ph) (imap_insert u m) in
+      if get_new_fee req a <=? get_new_fee req b then Ok (get_new_fee req b - get_new_fee req a) else Err
+    else Err.
+End FeeModel.
